@@ -67,9 +67,18 @@ def main(argv=None):
         except Exception:
             pass
         return 2
-    except Exception:
+    except Exception as e:
         traceback.print_exc()
-        print("ANALYSIS-BROKEN property=%s reason=internal error in checker" % pid)
+        tb = traceback.extract_tb(e.__traceback__)
+        at = "%s:%d" % (os.path.basename(tb[-1].filename), tb[-1].lineno) if tb else "?"
+        # (a struct member, parameter or instruction the rules look up by name or position is not where they expect it: the code's structure
+        # is not the one the rules were written for - no verdict)
+        msg = "a structure the rules rely on was not found (%s: %s, in %s): the changed code is not recognised" % (type(e).__name__, str(e)[:120], at)
+        print("ANALYSIS-BROKEN property=%s reason=%s" % (pid, msg))
+        try:
+            ck.write_evidence(0, 0, broken=msg)
+        except Exception:
+            pass
         return 2
     if a.replay:
         try:
